@@ -741,7 +741,7 @@ def unknownFinish (flags : Flags) (cost mult : Nat) (c : Ctr) : Except Err (Nat 
     if cost' > 2 ^ 32 - 1 then .error .Invalid
     else .ok (cost', Val.nil, c)
 
-theorem opUnknown_eq (op : Bytes) (flags maxCost : Nat) (args : Val) (c : Ctr) :
+theorem opUnknown_eq_parts (op : Bytes) (flags maxCost : Nat) (args : Val) (c : Ctr) :
     opUnknown op flags maxCost args c =
     if unknownReserved op then .error .Reserved
     else
@@ -794,7 +794,7 @@ theorem opUnknown_budget_general (op : Bytes) (flags m : Nat) (args : Val) (c : 
     ∃ base mult, unknownBase op flags m args = .ok base ∧ unknownMult op = some mult ∧ base ≤ m ∧
       unknownFinish flags base mult c = .ok r ∧
       LoopOk (max base r.1) 0 (fun m' => opUnknown op flags m' args c) r := by
-  simp only [opUnknown_eq] at h ⊢
+  simp only [opUnknown_eq_parts] at h ⊢
   by_cases hres : unknownReserved op = true
   · simp only [hres, ↓reduceIte] at h; cases h
   · simp only [hres, ↓reduceIte, Bool.false_eq_true] at h ⊢
@@ -880,7 +880,7 @@ theorem opUnknown_budget_newModel (op : Bytes) (flags : Nat) (hnm : newModel fla
 
 theorem opUnknown_budgetErr (op : Bytes) : OpBudgetErr (opUnknown op) := by
   refine .of_mono fun flags m m' args c x h hne hle => ?_
-  simp only [opUnknown_eq] at h ⊢
+  simp only [opUnknown_eq_parts] at h ⊢
   by_cases hres : unknownReserved op = true
   · simp only [hres, ↓reduceIte] at h ⊢; exact h
   · simp only [hres, ↓reduceIte, Bool.false_eq_true] at h ⊢
@@ -934,7 +934,7 @@ theorem opUnknown_wrap_ok (b : Bytes) (hb : b.length = 5726622969) (c : Ctr) :
   have hr : unknownReserved wrapOp = false := by decide
   have hm : unknownMult wrapOp = some (2 ^ 30 - 1) := by decide
   have hnm : newModel 0 = false := by decide
-  simp only [opUnknown_eq, hr, hm, wrap_base b hb, checkCost_of_le (Nat.le_refl _), Bool.false_eq_true, ↓reduceIte]
+  simp only [opUnknown_eq_parts, hr, hm, wrap_base b hb, checkCost_of_le (Nat.le_refl _), Bool.false_eq_true, ↓reduceIte]
   have hz : ((2 : Nat) ^ 34 == 0) = false := by decide
   simp only [hz, Bool.false_eq_true, ↓reduceIte, unknownFinish, hnm]
   have hw : (2 : Nat) ^ 34 * (2 ^ 30 - 1 + 1) % 2 ^ 64 = 0 := by decide
@@ -946,7 +946,7 @@ theorem opUnknown_wrap_fail (b : Bytes) (hb : b.length = 5726622969) (c : Ctr) :
     opUnknown wrapOp 0 0 (.pair (.atom b false) Val.nil) c = .error .CostExceeded := by
   have hr : unknownReserved wrapOp = false := by decide
   have hm : unknownMult wrapOp = some (2 ^ 30 - 1) := by decide
-  simp only [opUnknown_eq, hr, hm, wrap_base b hb, checkCost_of_lt (show 0 < 2 ^ 34 by decide), Bool.false_eq_true,
+  simp only [opUnknown_eq_parts, hr, hm, wrap_base b hb, checkCost_of_lt (show 0 < 2 ^ 34 by decide), Bool.false_eq_true,
     ↓reduceIte]
 
 /-- `OpBudget (opUnknown op)` is **false** for `op = 3fffffffc0` (old cost model, `wrapping_mul`) -/
